@@ -69,9 +69,3 @@ Definition pinned_decls_reader : list string :=
 
 Definition ok_reader : Prop :=
   of_file fst "reader.go" InvMdiff.inventory = pinned_reader /\ of_file (fun s => s) "reader.go" InvMdiff.decls = pinned_decls_reader.
-
-Lemma C13_inventory_mdiff : InvMdiff.files = pinned_files /\ ok_mdiff.
-Proof. unfold ok_mdiff; repeat split; vm_compute; reflexivity. Qed.
-
-Lemma C14_inventory_mdiff : InvMdiff.files = pinned_files /\ ok_format /\ ok_reader /\ ok_mdiff.
-Proof. unfold ok_format, ok_reader, ok_mdiff; repeat split; vm_compute; reflexivity. Qed.
